@@ -16,6 +16,9 @@ FIRST = {
     "C13-a2": "missed", "C13-a3": "missed", "C15-a2": "caught by C01/C07 only", "C11-a1": "caught by C01/C07 only", "C11-a3": "caught by C14/C15/C21/C22 only",
     "C23-a1": "missed (engine: a VariantIn literal matched a projection of the tested value)", "C23-a2": "caught by C06/C07/C22 only", "C23-a3": "missed",
     "C04-a1": "caught (NOT ESTABLISHED form)", "C04-a2": "caught (NOT ESTABLISHED: store gone)", "C08-a2": "caught by C09 only", "C08-a3": "missed",
+    "C07-b1": "caught by C08/C09/C16/C23 only", "C07-b2": "NOT ESTABLISHED under C06/C11/C14/.. only", "C07-b3": "caught by C08/C09/C12 only",
+    "C17-b1": "caught by C01/C12/C20 only", "C22-b1": "missed (window opened at the LRU unlink, not at the first mutation)", "C22-b2": "missed", "C22-b3": "caught by C12/C13/C18/C20 only",
+    "C24-a2": "caught (NOT ESTABLISHED: drain gone)",
     "C26-a1": "missed", "C26-a2": "caught (NOT ESTABLISHED: whole-vector store gone)", "C26-a3": "missed",
 }
 for d in sorted(os.listdir(os.path.join(ROOT, "seeded"))):
